@@ -17,6 +17,9 @@ func ruleC05_shared(c *Ctx) {
 	c.R.Only("C16.1")
 	ruleC16(c)
 	c.R.Only()
+	// the coordinate helpers are the maps of the rectangle and viewBox held at that point, after Reset and after a
+	// later SetRasterizer alike (owned by C06, which also needs their inverse)
+	only(c, ruleC06, "C06.0")
 }
 
 // verbExp is the reference meaning of one Renderer drawing method, written
